@@ -1,10 +1,10 @@
 (* Property C04 -- the lifted IL computes the documented result and flags for every operand value.
-   Statements only; proofs are in Proofs/AluProofs.v, ExecProofs.v, ExecProofs2.v, ExecMemProofs.v, ExecAluMemProofs.v, ExecLoopProofs.v, ExecRmwProofs.v and ExecRmwProofs2.v.
+   Statements only; proofs are in Proofs/AluProofs.v, ExecProofs.v, ExecProofs2.v, ExecMemProofs.v, ExecAluMemProofs.v, ExecLoopProofs.v, ExecRmwProofs.v, ExecRmwProofs2.v and ExecMvMemProofs.v.
    Model: Model/IL.v (evaluator) + Model/Lift.v (lifter), tied to the Python code by IL-text and execution
    correspondence on every run; documented semantics: Model/Spec.v (README instruction tables). *)
 From Coq Require Import ZArith NArith List Bool.
 From BE Require Import Model.TableTypes Gen.Tables Model.Regs Model.Decode Model.IL Model.Lift Model.Static Model.Spec
-  Model.Emu Proofs.AluProofs Proofs.ExecProofs Proofs.AccessProofs Proofs.ExecProofs2 Proofs.ExecProofs3 Proofs.ExecMemProofs Proofs.ExecPtrProofs Proofs.ExecStackProofs Proofs.ExecAluMemProofs Proofs.ExecLoopProofs Proofs.ExecRmwProofs Proofs.ExecRmwProofs2.
+  Model.Emu Proofs.AluProofs Proofs.ExecProofs Proofs.AccessProofs Proofs.ExecProofs2 Proofs.ExecProofs3 Proofs.ExecMemProofs Proofs.ExecPtrProofs Proofs.ExecStackProofs Proofs.ExecAluMemProofs Proofs.ExecLoopProofs Proofs.ExecRmwProofs Proofs.ExecRmwProofs2 Proofs.ExecMvMemProofs.
 Import ListNotations.
 Open Scope Z_scope.
 
@@ -126,6 +126,26 @@ Theorem C04_alu_A_imem_exact :
   map (fun c => (c, [PReg RA 1; PIMem 1])) [I_ADD; I_SUB; I_ADC; I_SBC; I_AND; I_OR; I_XOR].
 Proof. split; [|split; [|split; [|split; [|split; [|split; [|split; [|exact alu_mem_opcodes_check]]]]]]]; [exact add_A_imem | exact sub_A_imem | exact adc_A_imem | exact sbc_A_imem | exact and_A_imem | exact or_A_imem | exact xor_A_imem]. Qed.
 Print Assumptions C04_alu_A_imem_exact.
+
+(* transfers between two internal-memory operands: MV / MVW / MVP (m),(n) (1, 2, 3 bytes), no prefix and each of the 15 prefixes,
+   every m and n, byte memory: the destination cell - named by the FIRST addressing mode of the prefix - receives exactly the
+   little-endian content of the source cell - named by the SECOND mode - and nothing else architectural changes; the modes are
+   the entries of the regenerated prefix table (checked in the kernel for all 16 choices) *)
+Theorem C04_mv_imem_imem_exact :
+  mvmm_is_spec 200 1 /\ mvmm_is_spec 201 2 /\ mvmm_is_spec 202 3 /\
+  map (fun o => (d_cls (entry_of o), d_ops (entry_of o))) [200; 201; 202]%N =
+    [(I_MV, [PIMem 1; PIMem 1]); (I_MV, [PIMem 2; PIMem 2]); (I_MV, [PIMem 3; PIMem 3])] /\
+  forallb (fun c => match c with
+                    | None => match render_ops (mk_pre None 200 [OIMem 1 5; OIMem 1 9] 3) with Some [(_, IM_BP_N); (_, IM_BP_N)] => true | _ => false end
+                    | Some p => match render_ops (mk_pre (Some p) 200 [OIMem 1 5; OIMem 1 9] 4), mode_of (Some p) false, mode_of (Some p) true with
+                                | Some [(_, m1); (_, m2)], Some a, Some b => imode_eqb m1 a && imode_eqb m2 b
+                                | _, _, _ => false end
+                    end) pre_choices = true.
+Proof.
+  split; [exact mv_imem_imem|]. split; [exact mvw_imem_imem|]. split; [exact mvp_imem_imem|].
+  split; [exact mvmm_opcodes_check | exact mvmm_modes_are_the_prefix_table].
+Qed.
+Print Assumptions C04_mv_imem_imem_exact.
 
 (* read-modify-write on internal memory: ADD/SUB/ADC/SBC/AND/OR/XOR (n),imm and (n),A, INC/DEC (n), with no prefix and with each
    of the 15 prefixes, every n, every immediate, every carry-in, byte memory: the cell the prefix's addressing mode names holds
